@@ -27,6 +27,7 @@ class SimBudgetExceeded(HarnessError):
 
 
 MAX_ITERATIONS = 300_000
+MAX_WALL_S = 90.0
 
 
 class VClock:
@@ -45,6 +46,7 @@ class VSelector(selectors.BaseSelector):
         self._map: Dict[Any, selectors.SelectorKey] = {}
         self.loop: Optional['VLoop'] = None
         self.iterations = 0
+        self._wall0 = None
 
     def register(self, fileobj, events, data=None):
         key = selectors.SelectorKey(fileobj, fileobj if isinstance(fileobj, int) else fileobj.fileno(), events, data)
@@ -60,6 +62,12 @@ class VSelector(selectors.BaseSelector):
 
     def select(self, timeout=None):
         self.iterations += 1
+        if self.iterations % 2000 == 0:
+            import time as _t
+            if self._wall0 is None:
+                self._wall0 = _t.perf_counter()
+            elif _t.perf_counter() - self._wall0 > MAX_WALL_S:
+                raise SimBudgetExceeded(f'one case ran for more than {MAX_WALL_S} s of wall time (inconclusive, not a violation)')
         if self.iterations > MAX_ITERATIONS:
             raise SimBudgetExceeded(f'more than {MAX_ITERATIONS} event-loop iterations in one case (busy loop in virtual time)')
         if timeout is None:
